@@ -115,6 +115,8 @@ def run(ctx):
     vh = VH(vh_bin(), locklog=os.path.join(ctx.scratch_root, "lock_vh.log"))
     try:
         pinned(ctx, vh)
+        if os.environ.get("VERIF_ONLY_PINNED"):
+            return
         for i in range(n):
             root = ctx.scratch(f"c{i}")
             ws = gen_chain(root, ctx.rng)
